@@ -35,6 +35,9 @@ Definition arith_identity (ar : arith) : Prop :=
   (forall v, ar_point ar v vzero mid = v) /\ (forall v, ar_dir ar v mid = v) /\
   (forall u, ar_axis ar u vzero mid = u) /\ (forall r, ar_orient ar r mid = r).
 
+(** The specification arithmetic: rotate then offset; rotate; [uvplace]; compose with the instance rotation. *)
+Definition spec_arith : arith := {| ar_point := place; ar_dir := vrot; ar_axis := uvplace; ar_orient := mmul |}.
+
 Definition placement := (vec * mat)%type.
 Definition ident_placement : placement := (vzero, mid).
 
